@@ -1029,6 +1029,12 @@ def rule_cons(ctx, kernels=None):
                 # the value this execution of the loop stores (paths differ in how new_count was formed)
                 newv_here = next((e.value.lin for e in g if e.loops and e.loops[-1] is le.loop and isinstance(e.value, Num)), newv)
                 okc = newv_here is not None and any(w.P.prove_le0(newv_here - Lin.term(x.term), le.facts) for x in rd)
+                if not okc and newv_here is not None and rd:
+                    # the dominating query returned the minimum over exactly these cells (rules qmin / addr): its result is <= each of them
+                    pre_q = [c for c in on_path(w.events, le) if c in qcalls and isinstance(getattr(c, "result", None), Num)]
+                    if pre_q:
+                        qres = pre_q[-1].result.lin
+                        okc = any(w.P.prove_le0(newv_here - Lin.term(x.term), list(le.facts) + [qres - Lin.term(x.term)]) for x in rd)
                 res_c.append((bool(okc), "row skipped only when its cell is already >= new_count" if okc else
                               "a row of the key can be left below new_count: the key's estimate after the add is then smaller than old + v", fact_strs(le)))
             if res_c:
